@@ -222,3 +222,7 @@ CLAIMS['C15']['text'] += (' Round 9: JSON-SKIP also decides the skip predicate o
                           'recognisably "every entry is empty" (`iter().all(is_empty)` / `!iter().any(!is_empty)`, optionally after an '
                           'early true for the empty list); an existential or first-entry test drops content on the round trip; any other '
                           'shape is reported as an unrecognised idiom (fail-closed, DESIGN 7).')
+CLAIMS['C19']['text'] += (' Round 9: UNCHECKED-SIBLING - the range-unchecked slicer of the rope searches, picks and cuts pieces by the same '
+                          'expressions as its checked sibling (piece searches with receiver and comparator, miss adjustment, index of '
+                          'every piece access, range of every cut); decided as sibling agreement, not as correctness of either.')
+CLAIMS['C19']['technique'] += '; sibling agreement of normalised search / cut expressions between the checked and the unchecked slicer'
